@@ -2,8 +2,8 @@
    Statements only; proofs in Proofs/ARP.v, model in Model/AR.v.  R is the autocorrelation sequence
    the estimators work from (supplied, or utils.autocorr(x) — its correctness is property C20);
    all statements hold for every order and every complex sequence R meeting the stated guards. *)
-From Coq Require Import QArith List Bool Arith Lia Psatz Lqa.
-From NT Require Import QC Sums AR ARP ARGram.
+From Coq Require Import QArith Qcanon List Bool Arith Lia Psatz Lqa.
+From NT Require Import QC Sums AR ARP ARGram ARStab.
 Import ListNotations.
 Open Scope Q_scope.
 
@@ -117,15 +117,46 @@ Proof.
 Qed.
 Print Assumptions C10_LD_solves_YW_data.
 
-(* PARTIAL.  Full statement of the property: "for any real or complex signal the reported innovation
-   variance is positive and the fitted model is stable".  Proved: positivity of the innovation
-   variance and |k_q| < 1 for every non-zero signal and every order < N (C10_sigma_pos_data, through the
-   Gram identity and c^H T c = b_p), and for supplied sequences given |k_q| < 1 (C10_sigma_pos) or
-   positive definite Toeplitz forms (C10_sigma_pos_of_pd).
-   Missing: ONLY the Schur-Cohn step — that |k_q| < 1 for q = 1..p implies that all roots of
-   1 - sum a_k z^-k lie strictly inside the unit circle (stability).  Root moduli are checked
-   numerically on every generated signal by the search oracle.  (The all-zero signal is excluded:
-   R_0 = 0 and the code divides by it.) *)
+(* STABILITY.  For EVERY ordered extension E of Q (OrdExt: an ordered commutative ring containing Q —
+   every ordered field is one: the real algebraic numbers, any real closed field, Coq's R; E[i] = E * E
+   then contains all roots of the fitted polynomial) and every z0 in E[i]:
+     - a root of z^p - sum a_k z^(p-k) (the polynomial np.roots(r_[1, -ak]) factors) has |z0|^2 < 1,
+     - a root of 1 - sum a_k z^k (the denominator AR_psd evaluates at z = e^{-jw}) has |z0|^2 > 1,
+   i.e. all poles of the fitted transfer function lie strictly inside the unit circle.
+   Guards: R_0 real and the prediction errors of all orders <= p positive (equivalently R_0 > 0 and
+   |k_q| < 1, C10_sigma_pos / C10_LD_sigma_step).  Elementary algebraic proof (Proofs/ARStab.v): T is
+   positive definite over E[i] by induction on its size through the error filters, and dividing the
+   coefficient vector by the linear factor gives sigma = (1 - |z0|^2) b^H T' b. *)
+Theorem C10_stable : forall (E : OrdExt) (R : list C) (order : nat),
+  (1 <= order < length R)%nat -> im (nthC R 0) == 0 ->
+  (forall q, (q <= order)%nat -> 0 < ld_err R q) ->
+  forall z0 : ext_C E,
+    (ext_peval E (rev (map (ext_embed E) (den_coefs (fst (AR_est_LD R order))))) z0 = ext_zero E ->
+       olt E (ext_norm2 E z0) (o1 E)) /\
+    (ext_peval E (map (ext_embed E) (den_coefs (fst (AR_est_LD R order)))) z0 = ext_zero E ->
+       olt E (o1 E) (ext_norm2 E z0)).
+Proof. exact AR_stable. Qed.
+Print Assumptions C10_stable.
+
+(* ... and for data no guard is left: every non-zero signal, every order < N, the biased
+   autocorrelation estimate the code computes (Gram identity => positive prediction errors) *)
+Theorem C10_stable_data : forall (E : OrdExt) (x : list C) (order : nat),
+  (1 <= order < length x)%nat -> (exists t, (t < length x)%nat /\ ~ nthC x t =c= c0) ->
+  let ak := fst (AR_est_LD (autocorr_seq x (S order)) order) in
+  forall z0 : ext_C E,
+    (ext_peval E (rev (map (ext_embed E) (den_coefs ak))) z0 = ext_zero E -> olt E (ext_norm2 E z0) (o1 E)) /\
+    (ext_peval E (map (ext_embed E) (den_coefs ak)) z0 = ext_zero E -> olt E (o1 E) (ext_norm2 E z0)).
+Proof. exact AR_stable_data. Qed.
+Print Assumptions C10_stable_data.
+
+(* Formerly PARTIAL — the statement "for any real or complex signal the reported innovation variance is
+   positive and the fitted model is stable" is now proved in full for the model: positivity and
+   |k_q| < 1 by C10_sigma_pos_data (Gram identity), stability by C10_stable_data / C10_stable (roots in
+   any ordered extension of Q, so in particular all complex roots, read in a real closed field).
+   What remains outside the proof is only what is outside every C10 theorem: the tie of the model to
+   the code (K cases) and float64 rounding; root moduli are still checked numerically per input by the
+   oracle.  The all-zero signal is excluded (R_0 = 0, the code divides by it).  The theorem below is
+   kept under its old name: positivity from |k_q| < 1 for supplied sequences. *)
 Theorem C10_positive_stable_partial : forall R order,
   (1 <= order)%nat -> 0 < re (nthC R 0) ->
   (forall q, (1 <= q <= order)%nat -> cnorm2 (nthC (fst (AR_est_LD R q)) (q - 1)) < 1) ->
@@ -306,4 +337,21 @@ Proof.
   split; [simpl; lia|]. split.
   - exists 1%nat. split; [simpl; lia|]. intros [E _]. vm_compute in E. discriminate.
   - intro E. vm_compute in E. discriminate.
+Qed.
+
+(* the hypotheses of C10_stable are met, with an actual root in E[i], for the instance E := Qc (canonical
+   rationals): R = [2, 1+i], order 1, a_1 = (1+i)/2, z0 = a_1 is the root of z - a_1, |z0|^2 = 1/2 *)
+Definition exS : list C := [(2, 0); (1, 1)].
+Definition exz0 : ext_C Qc_ext := (Q2Qc (1#2), Q2Qc (1#2)).
+Lemma exS_err1 : Qlt_le_dec 0 (ld_err exS 1) = left eq_refl. Proof. vm_compute. reflexivity. Qed.
+Example C10_stable_hypotheses_met :
+  (1 <= 1 < length exS)%nat /\ im (nthC exS 0) == 0 /\ (forall q, (q <= 1)%nat -> 0 < ld_err exS q) /\
+  ext_peval Qc_ext (rev (map (ext_embed Qc_ext) (den_coefs (fst (AR_est_LD exS 1))))) exz0 = ext_zero Qc_ext /\
+  exz0 <> ext_zero Qc_ext.
+Proof.
+  split; [simpl; lia|]. split; [reflexivity|]. split; [|split].
+  - intros q Hq. destruct q as [|[|q]]; [reflexivity| |lia].
+    destruct (Qlt_le_dec 0 (ld_err exS 1)) as [L|L] eqn:E; [exact L|]. rewrite exS_err1 in E. discriminate.
+  - apply injective_projections; apply Qc_is_canon; vm_compute; reflexivity.
+  - intros E. inversion E.
 Qed.
